@@ -1150,6 +1150,13 @@ class PSBTIn:
                 )
             if self.tx_in.prev_index >= len(self.prev_tx.tx_outs):
                 raise ValueError("input refers to an output index that does not exist")
+            if self.prev_out:
+                # both UTXO forms given: the witness UTXO has to be the output being spent
+                utxo = self.prev_tx.tx_outs[self.tx_in.prev_index]
+                if utxo.serialize() != self.prev_out.serialize():
+                    raise ValueError(
+                        "witness UTXO does not match the previous transaction's output"
+                    )
         if self.prev_out:
             # witness input
             if not (
